@@ -7,7 +7,8 @@
 (* alphabet token before it, truncate the file after it.                          *)
 EXTENDS Naturals, Sequences, TLC, Json, IOUtils
 
-CONSTANTS MaxEdits
+CONSTANTS MaxEdits,
+          Exhaustive      \* TRUE: every single edit is a successor (model checking a small file); FALSE: edits are drawn (simulation)
 NTok == JsonDeserialize(IOEnv.MUTATE_NTOK)      \* sequence: number of tokens of file i
 NAlpha == atoi(IOEnv.MUTATE_NALPHA)             \* size of the replacement alphabet
 
@@ -18,14 +19,23 @@ Kinds == {"replace", "delete", "dup", "swap", "insert", "truncate"}
 
 Init == file \in 1..Len(NTok) /\ edits = <<>>
 
+ExhAlpha == IF Exhaustive THEN JsonDeserialize(IOEnv.MUTATE_EXH_ALPHA) ELSE <<>>     \* alphabet indexes used for replace / insert
+EditAll ==        \* the whole one-edit neighbourhood of the file: every kind at every position (with every token of ExhAlpha)
+  /\ Exhaustive /\ Len(edits) < MaxEdits /\ NTok[file] > 0
+  /\ \E k \in Kinds, p \in 1..NTok[file] :
+       \E a \in (IF k \in {"replace", "insert"} THEN {ExhAlpha[i] : i \in 1..Len(ExhAlpha)} ELSE {1}) :
+         edits' = Append(edits, [kind |-> k, pos |-> p, alpha |-> a])
+  /\ UNCHANGED file
+
 Edit ==
+  /\ ~Exhaustive
   /\ Len(edits) < MaxEdits
   /\ NTok[file] > 0
   \* simulation mode: TLC draws the edit at random (enumerating all successors would be 10^5 per step)
   /\ edits' = Append(edits, [kind |-> RandomElement(Kinds), pos |-> RandomElement(1..NTok[file]), alpha |-> RandomElement(1..NAlpha)])
   /\ UNCHANGED file
 
-Next == Edit
+Next == Edit \/ EditAll
 Spec == Init /\ [][Next]_vars
 
 Emit == (Len(edits) >= 1) => PrintT("VCASE " \o ToJson([file |-> file, edits |-> edits]))
